@@ -4,8 +4,9 @@
    extracted-model correspondence of harness/props/c17.py on every run. *)
 From Coq Require Import ZArith List Bool Lia.
 Import ListNotations.
-From Urwid Require Import PyBase PyList AttrFlow AttrFlowBasics AttrFlowMarkup AttrFlowLayout AttrFlowClip
-  AttrFlowTrim AttrFlowCells AttrFlowMaps AttrFlowSgr AttrFlowPalette.
+From Urwid Require Import PyBase PyList TermRef DrawScreen PaintSpec.
+From Urwid Require Import AttrFlow AttrFlowBasics AttrFlowMarkup AttrFlowLayout AttrFlowClip
+  AttrFlowTrim AttrFlowCells AttrFlowMaps AttrFlowSgr AttrFlowPalette AttrFlowE2E AttrFlowE2EProofs.
 Open Scope Z_scope.
 
 (* ================= clause 1a: markup =================
@@ -333,6 +334,118 @@ Example alias_gets_escape :
   let s := fst (prun (screen_init false false) [RegEntry (Some 0) false red_entry; RegAlias (Some 1) (Some 0)]) in
   attr_to_escape s (DName (Some 1)) = [0; 91; 44].
 Proof. vm_compute. reflexivity. Qed.
+
+(* ================= end to end: markup -> ... -> terminal =================
+   Composition with property C04 (Model/DrawScreen.v, Model/TermRef.v, Model/PaintSpec.v and the
+   theorem draw_paints, imported read-only).  [cfg_of s ntab utf8 bce] (Model/AttrFlowE2E.v) is the
+   attribute table draw_screen's model works with, built from the Screen state of THIS property's
+   palette model: id 0 is None, id i+1 the name i; a name with a palette entry carries the entry
+   for the active colour depth ([spec_for]), any other name is undefined. *)
+
+(* the two hand models of Screen._attrspec_to_escape are the same function *)
+Theorem attrspec_to_escape_models_agree :
+  forall bib bbb a, DrawScreen.spec_to_sgr bib bbb (conv a) = AttrFlow.attrspec_to_escape bib bbb a.
+Proof. exact enc_agree. Qed.
+Print Assumptions attrspec_to_escape_models_agree.
+
+(* after EVERY palette history, what draw_screen's model sends for a name is exactly the escape
+   this property's model keeps in _pal_escape for it (the default escape for an undefined name):
+   C04's model may recompute the escape from the AttrSpec because of palette_resolves_full *)
+Theorem draw_screen_sends_resolved_escape :
+  forall ops bib bbb ntab u b a,
+    let s := fst (prun (screen_init bib bbb) ops) in
+    0 <= ntab -> name_ok a -> table_covers s ntab ->
+    DrawScreen.attr_to_escape (cfg_of s ntab u b) (id_of_attr a) = [TSgr (AttrFlow.attr_to_escape s (DName a))].
+Proof.
+  intros ops bib bbb ntab u b a s. apply attr_to_escape_agree.
+  apply prun_consistent. apply init_consistent.
+Qed.
+Print Assumptions draw_screen_sends_resolved_escape.
+
+(* every cell of the cells C04 expects for a canvas row carries the pen of the run covering it *)
+Theorem expected_cells_carry_run_pens :
+  forall c row, Forall (run_ok c) row -> map c_at (row_cells c row) = map (attr_vis c) (row_cols c row).
+Proof. exact row_pens. Qed.
+Print Assumptions expected_cells_carry_run_pens.
+
+(* THE END-TO-END STATEMENT.  For EVERY markup tree (names >= 0), text data, layout and width,
+   EVERY palette history (entries, aliases, set_terminal_properties at any depth) and EVERY state in
+   which the Screen object and the terminal agree: draw_screen of the rendered canvas succeeds, and
+   for every row y and column x the terminal cell (x, y) is visually equal ([vis_eq], C04) to a cell
+   whose pen is [PaintSpec.visual] of the palette entry, at the active depth, of the attribute that
+   the MARKUP gives the character occupying that column ([seg_cells_f (tag_at m)]: the innermost tag
+   of that character, both columns of a double-width one; None for alignment padding and fill) - the
+   default pen when that name has no entry.
+   Premises: this property's ([enc_ok], [trimmed_lines], plain and solid inserts/characters), C04's
+   ([canvas_ok]: rows of runs as wide as the screen; [Sync]), valid AttrSpecs in the palette, and
+   [canvas_row_reads]: the part of the canvas neither model covers - the TEXT of a row is the
+   characters of its segments plus fill blanks, and TextCanvas.content() gives every column the
+   attribute of the first byte of its character (checked on every generated case by the harness). *)
+Theorem markup_to_terminal :
+  forall ops bib bbb m isb codes al text lines tl maxcol rows ntab bce content sc t,
+    let s := fst (prun (screen_init bib bbb) ops) in
+    let c := cfg_of s ntab true bce in
+    decompose_tagmarkup m = Ok (isb, codes, al) -> names_ok m ->
+    enc_ok isb text -> trimmed_lines text maxcol lines tl -> Forall (Forall ins_plain) tl ->
+    Forall (Forall (fun sg => Forall solid (seg_chars text sg))) tl ->
+    apply_text_layout isb text al lines maxcol = Ok rows ->
+    palette_valid s -> 0 <= ntab -> table_covers s ntab ->
+    canvas_ok c maxcol (zlen content) content ->
+    Forall2 (fun (sr : list seg * rle) crow_ => canvas_row_reads c text (fst sr) (snd sr) crow_) (combine tl rows) content ->
+    Sync c sc t -> t_cols t = maxcol -> t_rows t = zlen content ->
+    exists toks sc',
+      draw_screen c sc maxcol (zlen content) content None false false = Ok (toks, sc') /\
+      forall y segs, nth_error tl y = Some segs ->
+        exists k, forall x a,
+          nth_error (flat_map (seg_cells_f (tag_at m) text) segs ++ repeat None k) x = Some a ->
+          exists e g, nth_error (get_row (t_grid (TermRef.run t toks)) (Z.of_nat y)) x = Some g /\ vis_eq e g /\
+                      c_at e = PaintSpec.visual (s_bib s) (s_bbb s) (pen_spec s a).
+Proof. exact e2e_lemma. Qed.
+Print Assumptions markup_to_terminal.
+
+(* non-vacuity, computed: [("a" -> name 0, "x"), (name 1, wide char)] in 4 columns; name 0 = light
+   red on dark blue, name 1 unregistered; a fresh screen and terminal.  The pipeline runs and the
+   terminal cells carry: light red/dark blue, default, default (right half), default (fill). *)
+Example e2e_somewhere :
+  let m := Lst [Tagged (Some 0) (Str false [120]); Tagged (Some 1) (Str false [19990])] in
+  let text := [Chr 1 1 true 1; Chr 3 2 false 2] in
+  let s := fst (prun (screen_init false false) [RegEntry (Some 0) false red_entry]) in
+  let c := cfg_of s 3 true true in
+  let content := [[(1, 0, [(120, 1)]); (2, 0, [(19990, 2)]); (0, 0, [(32, 1)])]] in
+  match decompose_tagmarkup m with
+  | Ok (isb, _, al) =>
+      apply_text_layout isb text al [[SText 3 0 2]] 4 = Ok [[(Some 0, 1); (Some 1, 3); (None, 1)]] /\
+      match draw_screen c (init_scr false) 4 1 content None false false with
+      | Ok (toks, _) =>
+          map (fun cl => (c_cp cl, a_fg (c_at cl), a_bg (c_at cl)))
+              (get_row (t_grid (TermRef.run (new_term 4 1) toks)) 0)
+          = [(120, CBasic 9, CBasic 4); (19990, CDef, CDef); (-1, CDef, CDef); (32, CDef, CDef)]
+      | Err _ => False
+      end
+  | Err _ => False
+  end.
+Proof. vm_compute. split; reflexivity. Qed.
+
+Example e2e_premises_satisfiable :
+  let text := [Chr 1 1 true 1; Chr 3 2 false 2] in
+  let s := fst (prun (screen_init false false) [RegEntry (Some 0) false red_entry]) in
+  let c := cfg_of s 3 true true in
+  canvas_row_reads c text [SText 3 0 2] [(Some 0, 1); (Some 1, 3); (None, 1)]
+                   [(1, 0, [(120, 1)]); (2, 0, [(19990, 2)]); (0, 0, [(32, 1)])] /\
+  table_covers s 3 /\ palette_valid s.
+Proof.
+  cbn zeta. set (s := fst (prun (screen_init false false) [RegEntry (Some 0) false red_entry])).
+  vm_compute in s. split; [|split].
+  - exists [RC 1 1; RC 3 2; RC 1 1], 1%nat. split; [vm_compute; reflexivity|]. split; vm_compute; reflexivity.
+  - intros a Ha Hge. destruct a as [n|]; cbn [id_of_attr] in Hge; [|lia].
+    unfold spec_for, s. cbn [s_palette plookup attr_eqb].
+    destruct (0 =? n)%Z eqn:E; [lia | reflexivity].
+  - intros a sp H. unfold spec_for, s in H. cbn [s_palette plookup attr_eqb s_colors] in H.
+    destruct a as [n|].
+    + destruct (0 =? n)%Z eqn:E; [|discriminate]. vm_compute in H. inversion H; subst.
+      unfold valid_spec; cbn; repeat split; intros; try discriminate; lia.
+    + vm_compute in H. inversion H; subst. unfold valid_spec; cbn; repeat split; intros; try discriminate; lia.
+Qed.
 
 (* ================= non-vacuity ================= *)
 (* ("a", ["xy", ("b", "z"), (None, "w")]) : text, runs with the trailing None run dropped *)
